@@ -94,10 +94,13 @@ Definition cur0 (m : nat) (fsas : list (nat * arr)) : arr :=
   match fsas with [] => fsarray m 0 None | e :: r => snd (max_entry r e) end.
 (* SLOSBackend._deploy for one input with n photons under the mask instance mi.
    lv = [] (nothing deployed) or parent array of level 1 :: arrays of levels 1..L *)
-Definition deploy_lv (m : nat) (mi : option minst) (n : nat) (lv : list arr) (fsas : list (nat * arr)) : list arr :=
+(* [fixC] = level 1 is always derived from the unmasked vacuum level (/repo commit f2cccc2b, the code as it is now);
+   false = the code before it, which took _fsas[max key] (possibly the masked, empty, level-0 array) *)
+Definition deploy_lv (fixC : bool) (m : nat) (mi : option minst) (n : nat) (lv : list arr) (fsas : list (nat * arr)) : list arr :=
   let L := pred (length lv) in
   if (n <=? L)%nat then lv
-  else (match lv with [] => [cur0 m fsas] | _ => lv end) ++ map (fun k => fsarray m k mi) (seq (S L) (n - L)).
+  else (match lv with [] => [if fixC then fsarray m 0 None else cur0 m fsas] | _ => lv end)
+       ++ map (fun k => fsarray m k mi) (seq (S L) (n - L)).
 Definition deploy_fsas (m : nat) (mi : option minst) (n : nat) (fsas : list (nat * arr)) : list (nat * arr) :=
   match lookup n fsas with Some _ => fsas | None => (n, fsarray m n mi) :: fsas end.
 
@@ -142,12 +145,12 @@ Definition with_cfg (s : sst) circ inp masks mask_n mask : sst :=
   mk_sst circ inp masks mask_n mask (s_lv s) (s_fsas s) (s_paths s) (s_iter s) (s_built s) (s_dead s).
 
 (* SLOSBackend.preprocess([st]) *)
-Definition preprocess (s : sst) (m : nat) (U : mat R) (st : state) : sst :=
+Definition preprocess (fixC : bool) (s : sst) (m : nat) (U : mat R) (st : state) : sst :=
   match lookup_st st (s_paths s) with
   | Some _ => s
   | None =>
     let n := total st in
-    let lv := deploy_lv m (s_mask s) n (s_lv s) (s_fsas s) in
+    let lv := deploy_lv fixC m (s_mask s) n (s_lv s) (s_fsas s) in
     mk_sst (s_circ s) (s_in s) (s_masks s) (s_mask_n s) (s_mask s)
            lv (deploy_fsas m (s_mask s) n (s_fsas s)) ((st, U) :: s_paths s) (s_iter s)
            (match s_built s with None => Some (s_mask s) | b => b end)
@@ -194,7 +197,7 @@ Definition query_out (m : nat) (U : mat R) (fa it : arr) (lv : list arr) (st : s
 Definition uses_iter (q : squery) : bool := match q with QDist | QEvolve => true | _ => false end.
 Definition is_rows (o : sout) : bool := match o with OutRows _ _ => true | _ => false end.
 
-Variable fixA fixB : bool.
+Variable fixA fixB fixC : bool.
 
 Definition sstep (s : sst) (o : sop) : sst * sout :=
   if negb (slegal s o) then (s, OutErr) else
@@ -215,18 +218,18 @@ Definition sstep (s : sst) (o : sop) : sst * sout :=
       let stale := match s_built s with Some b => negb (minst_eqb b newmask) | None => false end in
       let s1 := if fixA && stale then sreset s else s in
       let s2 := with_cfg s1 (s_circ s) (Some st) (s_masks s) (s_mask_n s) newmask in
-      let s3 := preprocess s2 m U st in
+      let s3 := preprocess fixC s2 m U st in
       (s3, if s_dead s3 then OutCrash else OutNone)
     end
   | OMask mks n =>
     let mk := match s_in s with Some st => inst_of (Some mks) n (total st) | None => None end in
     let s1 := with_cfg (sreset s) (s_circ s) (s_in s) (Some mks) n mk in
-    let s2 := if fixB then match s_in s, s_circ s with Some st, Some (m, U) => preprocess s1 m U st | _, _ => s1 end
+    let s2 := if fixB then match s_in s, s_circ s with Some st, Some (m, U) => preprocess fixC s1 m U st | _, _ => s1 end
               else s1 in
     (s2, if s_dead s2 then OutCrash else OutNone)
   | OClear =>
     let s1 := with_cfg (sreset s) (s_circ s) (s_in s) None None None in
-    let s2 := if fixB then match s_in s, s_circ s with Some st, Some (m, U) => preprocess s1 m U st | _, _ => s1 end
+    let s2 := if fixB then match s_in s, s_circ s with Some st, Some (m, U) => preprocess fixC s1 m U st | _, _ => s1 end
               else s1 in
     (s2, if s_dead s2 then OutCrash else OutNone)
   | OQuery q =>
